@@ -100,7 +100,7 @@ func lockRules(c *Ctx, p *Prog, lf *LockFacts, scope map[*ssa.Function]bool, pfx
 			if len(bad) > 0 {
 				c.fail(pfx+".balanced", qname(f), p.pos(f.Pos()), "lock state is not restored on every exit", bad...)
 			} else {
-				c.ok(pfx+".balanced", qname(f), p.pos(f.Pos()), fmt.Sprintf("%d exit(s), each with the entry lock state; all joins have equal lock states", len(lf.ExitHeld[f])))
+				c.ok(pfx+".balanced", qname(f), p.pos(f.Pos()), fmt.Sprintf("%d exit(s), each way of arriving with the entry lock state (paths that join with different states are followed separately)", len(lf.ExitHeld[f])))
 			}
 		}
 		// blocking operations
